@@ -349,14 +349,18 @@ func TestC13(t *testing.T) {
 		}
 		for i := 0; i < 6; i++ {
 			op := sim.GenCreate(r, topo)
-			op.App, op.Entry = "app", "web" // same app/entrypoint so that prior counts are non-zero
+			// the same application and mostly the same entrypoint, so that prior counts are non-zero; the sibling
+			// entrypoints' names have the judged one's name as a prefix or are a prefix of it: their workloads and
+			// markers must not be counted
+			op.App, op.Entry = "app", []string{"web", "web2", "web", "we", "web", "web2"}[i]
+			rec.Count("deployments_of_entrypoint/"+op.Entry, 1)
 			runOne(&deployCase{Topology: topo, Op: op, Store: storeName}, false)
 		}
 		op := sim.GenCreate(r, topo)
 		op.App, op.Entry = "app", "web"
 		op.Count = 2 + r.Intn(3)
 		pre := sim.GenCreate(r, topo)
-		pre.App, pre.Entry, pre.Strategy = "app", "web", "AUTO"
+		pre.App, pre.Entry, pre.Strategy = "app", []string{"web", "web2"}[s%2], "AUTO"
 		for k := 1; k <= 90; k++ {
 			dc := &deployCase{Topology: topo, Setup: []sim.Op{pre}, Op: op, Fault: &sim.FaultPlan{Kind: "fail", Index: k}, Store: storeName}
 			runOne(dc, true)
